@@ -183,7 +183,10 @@ cfgname_holder = [None]
 
 def wrap_inv(contract, mk, f, k):
     def inv(ex, idx, goal=False):
-        c = mk(goal); parts = f(c, idx)
+        c = mk(goal); c.ex = ex; c.loop = getattr(ex, 'loop_nodes', {}).get(k)
+        try: parts = f(c, idx)
+        except (KeyError, AttributeError, TypeError) as e:
+            raise Undecided('the invariant of loop%s refers to program state that does not exist (any more): %s: %s' % (k, type(e).__name__, e))
         if goal and contract.skolem_for(cfgname_holder[0]):
             for (j, lo, hi) in c.skolems:
                 ex.st.assume += list(contract.spec_instances(c, j))
